@@ -22,6 +22,8 @@ func main() {
 		readerMain(os.Args[2:])
 	case "serve":
 		serveMain(os.Args[2:])
+	case "quitprobe":
+		quitprobeMain(os.Args[2:])
 	case "tcp":
 		tcpMain(os.Args[2:])
 	case "crash":
